@@ -146,4 +146,41 @@ def extract(repo):
     return "".join(lines), info
 
 
-EXTRACTORS = {"ntescapes": ("NtEscapes.lean", extract)}
+# ---------------------------------------------------------------------------------------------
+# pure-ASCII mode: today both serializers start with `if self.config.ascii { todo!(..) }`.
+# The flags say whether that is still ALL the source does with the option; they never fail: when the
+# mode gets implemented the model stops predicting a panic and the driver only keeps the oracles
+# (round trip, ASCII-only output, one statement per line) for `ascii` requests.
+
+def _ascii_flag(repo, rel, allowed):
+    text = read(repo, rel)
+    text = re.sub(r"//[^\n]*", "", text)          # comments (incl. doc comments)
+    cut = text.find("#[cfg(test)]")
+    if cut >= 0:
+        text = text[:cut]
+    norm = " ".join(text.split())
+    guard = r"if self\.config\.ascii \{ todo!\((?:\"[^\"]*\")?\);? \}"
+    n_guard = len(re.findall(guard, norm))
+    rest = re.sub(guard, "", norm)
+    for a in allowed:
+        rest = rest.replace(a, "")
+    other = len(re.findall(r"\bascii\b", rest))
+    return n_guard == 1 and other == 0, {"todo_guards": n_guard, "other_uses_of_ascii": other}
+
+
+def extract_ascii(repo):
+    nt, i1 = _ascii_flag(repo, "turtle/src/serializer/nt.rs",
+                         ["pub(super) ascii: bool,", "pub fn set_ascii(&mut self, ascii: bool) -> &mut Self { self.ascii = ascii; self }"])
+    nq, i2 = _ascii_flag(repo, "turtle/src/serializer/nq.rs", [])
+    lines = [HEADER,
+             "-- source: turtle/src/serializer/nt.rs (NtSerializer::serialize_triples), nq.rs (NqSerializer::serialize_quads)\n",
+             "namespace SophiaModel.Gen\n\n",
+             "/-- `serialize_triples` starts with `if self.config.ascii { todo!(..) }` and nothing else reads the option -/\n",
+             "def ntAsciiTodo : Bool := %s\n\n" % ("true" if nt else "false"),
+             "/-- same for `NqSerializer::serialize_quads` -/\n",
+             "def nqAsciiTodo : Bool := %s\n\n" % ("true" if nq else "false"),
+             "end SophiaModel.Gen\n"]
+    return "".join(lines), {"nt": i1, "nq": i2}
+
+
+EXTRACTORS = {"ntescapes": ("NtEscapes.lean", extract), "ntascii": ("NtAscii.lean", extract_ascii)}
